@@ -50,3 +50,13 @@ Theorem C02_undeclared_is_an_error : forall c cur next run s,
   (forall l s1, p_lookup (r_run run) s = (Ok (Some l), s1) -> r_status l = cur -> fst (updater c cur next run s) = Err EGen).
 Proof. exact updater_undeclared. Qed.
 Print Assumptions C02_undeclared_is_an_error.
+
+(* A RUN THAT HAS MOVED ON IS LEFT ALONE, for EVERY state (any world, fault plan, lease, stale reads included): when the updater's
+   own re-read finds the run at another status than the one the function was invoked at — higher OR lower numbered — the
+   function's result is dropped: nothing is written, nil is returned, the final state is the state right after that lookup. So
+   no persisted status change ever starts from a status other than the one its transition was validated from *)
+Theorem C02_moved_on_run_is_left_alone : forall c cur next run s l s1,
+  p_lookup (r_run run) s = (Ok (Some l), s1) -> r_status l <> cur ->
+  updater c cur next run s = (Ok tt, s1).
+Proof. exact updater_moved_on. Qed.
+Print Assumptions C02_moved_on_run_is_left_alone.
